@@ -399,6 +399,13 @@ ReturnStep ==
                       LET loud == {m \in f.legal : m \div 32768 \in {1, 2} \/ (m \div 4096) % 8 = 5}
                       IN  Viol(loud \subseteq f.tried, "C10", "capture-or-queen-promotion-not-searched-in-quiescence",
                                [fen |-> FenOf(f.pos), root |-> FenOf(rootpos), missing |-> loud \ f.tried])
+                \* a full node that ran through its list without a cut-off: every legal capture was searched, and every legal
+                \* move where nothing may be skipped (skipping quiet moves is confined to non-PV nodes at depth 1 out of check)
+                /\ (~f.q /\ ~f.cut /\ f.legal # {-1}) =>
+                      LET caps == {m \in f.legal : m \div 32768 \in {1, 2}}
+                          all  == IF IsPv(f) \/ f.chk \/ f.deff > 1 THEN f.legal ELSE caps
+                      IN  Viol(all \subseteq f.tried, "C10", "legal-move-never-handed-to-the-search",
+                               [fen |-> FenOf(f.pos), root |-> FenOf(rootpos), missing |-> all \ f.tried, depth |-> f.deff])
                 /\ Set([f EXCEPT !.last = "O", !.lv = <<E.v[1], E.v[2], 0>>])
                 /\ rootlines' = IF f.ply = 0 THEN rootlines \cup {f.pv} ELSE rootlines
        ELSE UNCHANGED <<st, rootlines>>
